@@ -1059,3 +1059,150 @@ func vfAnyContains(lines []string, sub string) bool {
 	}
 	return false
 }
+
+// TestVerifC12Shutdown: the server is told to stop (as the runner does once the client has answered the last case)
+// while a request is still being uploaded. The request is finished during the graceful period and carries an HTTP
+// trailer: the feedback about it - printed when the handler returns - must still reach the server's stderr before
+// that ends, just like the feedback printed on arrival. Over HTTP/1.1 (plain and TLS) and HTTP/2 under TLS: cleartext
+// HTTP/2 connections are taken over by the h2c handler and are outside net/http's graceful shutdown, so nothing is
+// claimed for them.
+func TestVerifC12Shutdown(t *testing.T) {
+	en := verifkit.NewEnum(t, "C12Shutdown")
+	type row struct {
+		H2        bool   `json:"h2"`
+		TLS       bool   `json:"tls"`
+		Procedure string `json:"procedure"` // ClientStream, BidiStream, Unary
+		HoldMs    int    `json:"holdMs"`    // how long after the stop signal the upload ends
+	}
+	var rows []row
+	for _, tr := range [][2]bool{{false, false}, {false, true}, {true, true}} {
+		for _, p := range []string{"ClientStream", "BidiStream", "Unary"} {
+			for _, hold := range []int{0, 400} {
+				rows = append(rows, row{tr[0], tr[1], p, hold})
+			}
+		}
+	}
+	srvCert, srvKey, err := internal.NewServerCert()
+	if err != nil {
+		t.Fatal(err)
+	}
+	var replay row
+	if en.ReplayCase(&replay) {
+		rows = []row{replay}
+	}
+	for _, r := range rows {
+		viol := func() error {
+			version, httpVersion := 1, conformancev1.HTTPVersion_HTTP_VERSION_1
+			if r.H2 {
+				version, httpVersion = 2, conformancev1.HTTPVersion_HTTP_VERSION_2
+			}
+			sreq := &conformancev1.ServerCompatRequest{Protocol: conformancev1.Protocol_PROTOCOL_CONNECT, HttpVersion: httpVersion}
+			scheme := "http://"
+			if r.TLS {
+				sreq.UseTls, sreq.ServerCreds = true, &conformancev1.TLSCreds{Cert: srvCert, Key: srvKey}
+				scheme = "https://"
+			}
+			srv, err := vfStartRefServerWith(sreq)
+			if err != nil {
+				return nil
+			}
+			stopped := false
+			defer func() {
+				if !stopped {
+					srv.stop()
+				}
+			}()
+			var tlsConf *tls.Config
+			if r.TLS {
+				if tlsConf, err = internal.NewClientTLSConfig(srv.cert, nil, nil); err != nil {
+					return nil
+				}
+			}
+			var client *http.Client
+			if r.H2 {
+				tr := &http2.Transport{TLSClientConfig: tlsConf, DisableCompression: true}
+				defer tr.CloseIdleConnections()
+				client = &http.Client{Transport: tr}
+			} else {
+				tr := &http.Transport{TLSClientConfig: tlsConf, TLSNextProto: map[string]func(string, *tls.Conn) http.RoundTripper{}, DisableCompression: true}
+				defer tr.CloseIdleConnections()
+				client = &http.Client{Transport: tr}
+			}
+			name := fmt.Sprintf("verif/c12shutdown/%d", vfBBSeq.Add(1))
+			stream := r.Procedure != "Unary"
+			actual := vfSetup{Version: version, Protocol: 1, Codec: 1, Compression: 1, StreamCT: stream, TLS: r.TLS}
+			expected := actual
+			expected.Codec = 2 // (a deviation the server reports when the request arrives: the barrier)
+			pr, pw := io.Pipe()
+			req, _ := http.NewRequest(http.MethodPost, scheme+srv.addr+"/connectrpc.conformance.v1.ConformanceService/"+r.Procedure, pr)
+			if stream {
+				req.Header.Set("Content-Type", "application/connect+proto")
+			} else {
+				req.Header.Set("Content-Type", "application/proto")
+			}
+			for k, v := range vfSynthRequest(expected, actual, name).Header {
+				if strings.HasPrefix(k, "X-Expect-") || k == "X-Test-Case-Name" {
+					req.Header[k] = v
+				}
+			}
+			req.ContentLength = -1
+			req.Trailer = http.Header{"X-Verif-Trailer": {"t"}}
+			ctx, cancel := context.WithTimeout(context.Background(), 30*time.Second)
+			defer cancel()
+			answered := make(chan struct{})
+			go func() {
+				defer close(answered)
+				resp, err := client.Do(req.WithContext(ctx))
+				if err == nil {
+					_, _ = io.Copy(io.Discard, resp.Body)
+					_ = resp.Body.Close()
+				}
+			}()
+			if !srv.waitForLine(name+": ", 10*time.Second) {
+				_ = pw.Close()
+				return nil // cannot tell that the request arrived: no verdict
+			}
+			srv.cancel() // the stop signal
+			time.Sleep(time.Duration(r.HoldMs) * time.Millisecond)
+			var body []byte
+			switch r.Procedure {
+			case "ClientStream":
+				body, _ = proto.Marshal(&conformancev1.ClientStreamRequest{RequestData: []byte("x")})
+			case "BidiStream":
+				body, _ = proto.Marshal(&conformancev1.BidiStreamRequest{RequestData: []byte("x")})
+			default:
+				body, _ = proto.Marshal(&conformancev1.UnaryRequest{RequestData: []byte("x")})
+			}
+			if stream {
+				env := make([]byte, 5, 5+len(body))
+				binary.BigEndian.PutUint32(env[1:], uint32(len(body)))
+				body = append(env, body...)
+			}
+			_, _ = pw.Write(body)
+			_ = pw.Close()
+			select {
+			case <-srv.done:
+				stopped = true
+			case <-time.After(20 * time.Second):
+				return verifkit.Violf("shutdown-hang", "the server had not stopped 20s after the stop signal although the upload ended %dms after it", r.HoldMs)
+			}
+			select {
+			case <-answered:
+			case <-time.After(5 * time.Second):
+			}
+			time.Sleep(50 * time.Millisecond) // (the stderr reader of the harness)
+			lines := srv.feedbackFor(name)
+			for _, l := range lines {
+				if strings.Contains(l, "HTTP trailers") {
+					return nil
+				}
+			}
+			return verifkit.Violf("shutdown-feedback-lost", "%s over HTTP/%d (TLS %v), upload finished %dms after the stop signal with a trailer: the server's stderr ended without the trailer feedback, it has only %q", r.Procedure, version, r.TLS, r.HoldMs, lines)
+		}()
+		en.Rec.Observe(r, []string{fmt.Sprintf("h2:%v", r.H2), fmt.Sprintf("tls:%v", r.TLS), "procedure:" + r.Procedure}, true)
+		if viol != nil && en.Fail(r, viol) {
+			break
+		}
+	}
+	en.Done(true)
+}
